@@ -981,6 +981,17 @@ func cmdTrace(args []string) int {
 		fmt.Println("  ", l)
 	}
 	fmt.Printf("outcome=%s steps=%d digest=%s probes=%v\n", r.Outcome, r.Steps, r.Digest, r.Probes)
+	if out := os.Getenv("VERIF_SAVE_CASE"); out != "" {
+		cj := r.caseJSON
+		if cj == nil && r.Sample != nil {
+			cj, _ = json.Marshal(r.Sample)
+		}
+		var c any
+		if decodeJSON(cj, &c) == nil {
+			writeJSON(out, map[string]any{"property": prop, "variant": laneKey, "case": c})
+			fmt.Println("case written to", out)
+		}
+	}
 	return 0
 }
 
@@ -1028,7 +1039,7 @@ func cmdSelftest(args []string) int {
 			go func() {
 				defer wg.Done()
 				defer func() { <-sem }()
-				rs, err := runWorker(b.bin, map[string]any{"mode": "gen", "property": prop, "seed": seed, "count": 1, "profile": ln.profile}, 180*time.Second, "GOMAXPROCS="+procs)
+				rs, err := runWorker(b.bin, map[string]any{"mode": "gen", "property": prop, "seed": seed, "count": 1, "profile": ln.profile}, 180*time.Second, "GOMAXPROCS="+procs, "VERIF_SELFTEST=1")
 				mu.Lock()
 				defer mu.Unlock()
 				if err != nil {
